@@ -1,6 +1,6 @@
 #!/usr/bin/env python3
-"""Regenerate the per-property status table in DESIGN.md (between the STATUS markers) from props/*.json,
-known_findings.json, seeded/*/result.json."""
+"""Regenerate the generated blocks of DESIGN.md (status table, per-property record, findings, seeded changes)
+from props/*.json, known_findings.json, seeded/*/{meta,confirm,result}.json."""
 import glob, json, os, re
 V = "/verif"
 props = {}
@@ -9,34 +9,74 @@ for p in sorted(glob.glob(V + "/props/C*.json")):
 known = json.load(open(V + "/known_findings.json"))
 titles = {json.loads(l)["id"]: json.loads(l)["title"] for l in open(V + "/properties.jsonl")}
 seeded = {}
+seed_rows = []
 for d in sorted(glob.glob(V + "/seeded/*/")):
+    sid = os.path.basename(d.rstrip("/"))
     try:
-        meta = json.load(open(d + "meta.json")); res = json.load(open(d + "result.json"))
+        meta = json.load(open(d + "meta.json"))
     except Exception:
         continue
-    pid = meta["property"] if isinstance(meta["property"], str) else meta["property"][0]
-    r = res["results"].get(pid, {})
-    seeded.setdefault(pid, []).append((os.path.basename(d.rstrip("/")), r.get("caught"), r))
+    pid = re.match(r"C\d+", str(meta["property"] if isinstance(meta["property"], str) else meta["property"][0])).group(0)
+    res = {}
+    try:
+        res = json.load(open(d + "result.json"))["results"].get(pid, {})
+    except Exception:
+        pass
+    caught = res.get("caught")
+    seeded.setdefault(pid, []).append((sid, caught))
+    how = ""
+    for r in res.get("replays", [])[:1]:
+        if r.get("oracle_clause"):
+            how = "oracle `%s` on stream %s (concrete failing input)" % (r["oracle_clause"], r.get("stream"))
+        elif r.get("kind") == "no-failing-input-found":
+            nl = (r.get("no_longer_checks") or [{}])[0]
+            how = "%s broken (%s), no failing input found" % (nl.get("kind"), nl.get("stream") or str((nl.get("problems") or [""])[0])[:80])
+    st = "caught" if caught else ("MISSED" if caught is False else "not run")
+    seed_rows.append("| %s | %s | %s | %s | %s | %s |" % (sid, pid, str(meta.get("breaks", ""))[:150].replace("|", "/"),
+                     str(meta.get("needs", ""))[:140].replace("|", "/"), st, how))
+
+def block(name, text, s):
+    begin, end = "<!-- %s-BEGIN -->" % name, "<!-- %s-END -->" % name
+    b = begin + "\n" + text + "\n" + end
+    if begin in s:
+        return re.sub(re.escape(begin) + r".*?" + re.escape(end), lambda m: b, s, flags=re.S)
+    return s.rstrip("\n") + "\n\n" + b + "\n"
+
 rows = ["| id | claim | theorems | streams (quick cases) | findings | seeded changes (caught/total) |", "|---|---|---|---|---|---|"]
 for pid in sorted(titles):
     j = props.get(pid)
     if not j:
-        rows.append("| %s | not claimed yet | | | | |" % pid); continue
+        rows.append("| %s | not claimed | | | | |" % pid); continue
     full = "FULL" if j.get("full_statement_proved") else "partial"
-    ths = len(j.get("theorems", []))
     streams = ", ".join("%s (%s)" % (s["name"], s.get("quick_n", "?")) for s in j.get("streams", []))
     ks = "; ".join("%s %s%s" % (k["id"], k["kind"], (" " + k.get("commit", "")) if k["kind"] == "fixed" else "") for k in known if k["property"] == pid)
     sd = seeded.get(pid, [])
-    sds = "%d/%d" % (sum(1 for _, c, _ in sd if c), len(sd)) if sd else ""
-    rows.append("| %s | %s | %d | %s | %s | %s |" % (pid, full, ths, streams, ks, sds))
-table = "\n".join(rows)
+    sds = "%d/%d" % (sum(1 for _, c in sd if c), len(sd)) if sd else ""
+    rows.append("| %s | %s | %d | %s | %s | %s |" % (pid, full, len(j.get("theorems", [])), streams, ks, sds))
+
+rec = []
+for pid in sorted(titles):
+    j = props.get(pid)
+    if not j: continue
+    rec.append("#### %s — %s" % (pid, titles[pid]))
+    rec.append("* **Claim**: %s%s" % ("full statement proved on the model" if j.get("full_statement_proved") else "PARTIAL", (" — " + j["partial_note"]) if j.get("partial_note") else ""))
+    rec.append("* **Theorems** (`lean/%s.lean`): %s" % (j["lean_module"].replace(".", "/"), ", ".join("`%s`" % t.split(".")[-1] for t in j.get("theorems", []))))
+    if j.get("explanation"): rec.append("* **What they say**: %s" % j["explanation"])
+    rec.append("* **Tie**: streams %s%s" % (", ".join("`%s`" % s["name"] for s in j.get("streams", [])) or "none",
+               ("; anchors: " + ", ".join(t["script"] + " " + " ".join(t.get("args", [])) for t in j["anchor_tools"])) if j.get("anchor_tools") else ""))
+    if j.get("trusted_base"): rec.append("* **Trusted / modelled rather than verified**: " + "; ".join(j["trusted_base"]))
+    if j.get("assumptions"): rec.append("* **Assumptions**: " + "; ".join(j["assumptions"]))
+    rec.append("")
+
+fr = ["| id | property | kind | commit | what |", "|---|---|---|---|---|"]
+for k in known:
+    fr.append("| %s | %s | %s | %s | %s |" % (k["id"], k["property"], k["kind"], k.get("commit", ""), k["what"][:400].replace("|", "/")))
+
 p = V + "/DESIGN.md"
 s = open(p).read()
-begin, end = "<!-- STATUS-BEGIN -->", "<!-- STATUS-END -->"
-block = begin + "\n" + table + "\n" + end
-if begin in s:
-    s = re.sub(re.escape(begin) + r".*?" + re.escape(end), lambda m: block, s, flags=re.S)
-else:
-    s = s.rstrip("\n") + "\n\n" + block + "\n"
+s = block("STATUS", "\n".join(rows), s)
+s = block("RECORD", "### 10.3 Per-property record (generated from props/*.json)\n\n" + "\n".join(rec), s)
+s = block("FINDINGS", "### 10.4 Findings (generated from known_findings.json)\n\n" + "\n".join(fr), s)
+s = block("SEEDED", "### 10.5 Independently seeded changes and what catches them (generated from seeded/*/)\n\n| change | property | clause broken | needs | result | caught by |\n|---|---|---|---|---|---|\n" + "\n".join(seed_rows), s)
 open(p, "w").write(s)
-print("status table: %d claimed of %d" % (len(props), len(titles)))
+print("status: %d claimed of %d; %d findings; %d seeded changes" % (len(props), len(titles), len(known), len(seed_rows)))
